@@ -2,7 +2,7 @@
    (a) which of count[0], count[1] is the low word, (b) big- or little-endian vectors and
    (c) the block transform:  XXX_Init, XXX_Update (bit count kept in two uint32_t with the carry
    test written out), XXX_Pad (padding done THROUGH two Update calls, length vector captured
-   first), XXX_Final (wipes the context), XXX_Buf.  Definitions only. *)
+   first), XXX_Final (what it does to the context afterwards is a parameter), XXX_Buf.  Definitions only. *)
 From Coq Require Import Arith NArith List.
 From LCP Require Import Alg.Words Alg.MDModel.
 Import ListNotations.
@@ -51,14 +51,15 @@ Section Model.
     let c1 := c32_update c (firstn (N.to_nat plen) PAD) in
     c32_update c1 len8.
 
-  Definition c32_zero (nstate : nat) : ctx32 := mk32 (repeat 0 nstate) 0 0 (repeat 0 64).
-
-  (* XXX_Final: digest, and the context after insecure_memzero(ctx, sizeof(XXX_CTX)) *)
-  Definition c32_final (c : ctx32) : list N * ctx32 :=
-    let c' := c32_pad c in (enc_vect (c32_state c'), c32_zero (length iv)).
+  (* XXX_Final: XXX_Pad, the digest written from the state words, then whatever the remaining
+     statements do to the context.  [wipe] is NOT fixed here: HashRepo.v passes the result of
+     interpreting the statement list regenerated from the body of XXX_Final (Alg/HashWipe.v). *)
+  Definition c32_final (wipe : ctx32 -> ctx32) (c : ctx32) : list N * ctx32 :=
+    let c' := c32_pad c in (enc_vect (c32_state c'), wipe c').
 
   (* XXX_Buf *)
-  Definition c32_buf_oneshot (m : list N) : list N := fst (c32_final (c32_update c32_init m)).
+  Definition c32_buf_oneshot (m : list N) : list N :=
+    fst (c32_final (fun c => c) (c32_update c32_init m)).
 End Model.
 
 Definition c32_is_zero (c : ctx32) : bool :=
